@@ -1,6 +1,7 @@
 import CopVerif.Base.FloatIO
 import CopVerif.Model.Rng
 import CopVerif.Model.DatasetShape
+import CopVerif.Gen.RngScope
 /-!
 Driver for the RNG-protocol model (C15): runs a history in the free term algebra and prints, after
 every op, the term of the global generator, of every model's `random_state`, of every
@@ -16,6 +17,11 @@ Request  `rng run <n> <cls_0> … <cls_{n-1}> T <cls>=<0|1> … H <op> …`
          `D:<name>:<seed>:<size>`  `B:<seed>:<size>`   dataset generators (draws from `datasetDraws`)
 Reply    `ok` then per op: `| g=<term> m0=<term|-> … c0=<term> … r=<-|X|ok:<term>/<key>;…>`
          a term is `root.d1.d2…` (root 0 = prior global state, s+1 = fromSeed s).
+Request  `rng genrun …` (same syntax): the same history executed by the step function GENERATED from the source
+         (`Gen.RngScope.step`: translated context manager / decorator / `validate_random_state` / `set_random_state`
+         methods, generated class table; the `T` table of the request is ignored).
+Request  `rng genrows` → `ok <cls>:<sample owner>:<decorators joined by +|->:<setter owner>:<delegates 0|1>:<ctor 0|1> …`
+         (the table `Gen.RngScope.samplerRows` generated from the class statements).
 Request  `rng table [repaired]` → `ok <cls>=<0|1> …` (the expected decorator table).
 Request  `rng shape <name> <size>` → `ok rows=<n|none> cols=<k> draws=<kind>:<count|s>,…|-`: rows / columns /
          draw requests (in order; `s` = scalar draw) of `DatasetShape.prog name size`; for `univariates` the
@@ -101,7 +107,8 @@ def showTable (t : List TableEntry) : String :=
   " ".intercalate (t.map fun e => e.cls ++ "=" ++ (if e.decorated then "1" else "0"))
 
 /-- run the surface ops from `World.init`, one `step` of the model per op. -/
-def runHistory (cfg : Config) (n : Nat) (ops : List SOp) : Option (List String) :=
+def runHistory (stepFn : World FT → Op Nat → World FT × Option (Result FOut)) (n : Nat) (ops : List SOp) :
+    Option (List String) :=
   let rec go (w : World FT) (callers : List Nat) (acc : List String) : List SOp → Option (List String)
     | [] => some acc.reverse
     | sop :: rest =>
@@ -111,7 +118,7 @@ def runHistory (cfg : Config) (n : Nat) (ops : List SOp) : Option (List String) 
         let callers' := match sop with
           | .callerNew _ => callers ++ [w.next]
           | _ => callers
-        let r := step (freeAlg Nat) cfg w op
+        let r := stepFn w op
         go r.1 callers' (showWorld n callers' r.1 r.2 :: acc) rest
   go (World.init ⟨0, []⟩) [] [] ops
 
@@ -133,15 +140,12 @@ def shape (name : String) (size : Nat) : String :=
     let p := prog name size
     s!"ok rows={showOptNat p.rows} cols={p.cols.length} draws=" ++ showDrawReqs p.draws
 
-def rng (ws : List String) : String :=
-  match ws with
-  | ["shape", name, size] =>
-    match size.toNat? with
-    | some n => shape name n
-    | none => "bad-op"
-  | ["table"] => "ok " ++ showTable asFoundTable
-  | ["table", "repaired"] => "ok " ++ showTable repairedTable
-  | "run" :: n :: rest =>
+def showRow (r : CopVerif.Gen.RngScope.SamplerRow) : String :=
+  ":".intercalate [r.cls, r.sampleOwner, (if r.decorators.isEmpty then "-" else "+".intercalate r.decorators),
+    r.setterOwner, (if r.delegates then "1" else "0"), (if r.ctorValidates then "1" else "0")]
+
+/-- `run` / `genrun`: parse the request and execute it with the hand model's or the generated step function. -/
+def runRequest (gen : Bool) (n : String) (rest : List String) : String :=
     match n.toNat? with
     | none => "bad-op"
     | some n =>
@@ -154,12 +158,27 @@ def rng (ws : List String) : String :=
           match ows.mapM parseOp with
           | none => "bad-op"
           | some ops =>
-            let cfg := configOf table fun m => classes.getD m ""
-            match runHistory cfg n ops with
+            let clsOf := fun m => classes.getD m ""
+            let stepFn : World FT → Op Nat → World FT × Option (Result FOut) :=
+              if gen then CopVerif.Gen.RngScope.step (freeAlg Nat) clsOf
+              else step (freeAlg Nat) (configOf table clsOf)
+            match runHistory stepFn n ops with
             | some lines => " ".intercalate ("ok" :: lines)
             | none => "bad-ref"
         | _, _ => "bad-op"
       | _ => "bad-op"
+
+def rng (ws : List String) : String :=
+  match ws with
+  | ["genrows"] => "ok " ++ " ".intercalate (CopVerif.Gen.RngScope.samplerRows.map showRow)
+  | "genrun" :: n :: rest => runRequest true n rest
+  | ["shape", name, size] =>
+    match size.toNat? with
+    | some n => shape name n
+    | none => "bad-op"
+  | ["table"] => "ok " ++ showTable asFoundTable
+  | ["table", "repaired"] => "ok " ++ showTable repairedTable
+  | "run" :: n :: rest => runRequest false n rest
   | _ => "bad-op"
 
 end CopVerif.Driver
